@@ -12,6 +12,7 @@ Z3_BIN = '/usr/local/bin/z3-new' if os.path.exists('/usr/local/bin/z3-new') else
 CVC5_BIN = '/usr/bin/cvc5'
 Z3_TIMEOUT_S = int(os.environ.get('PYVC_Z3_TIMEOUT', '20'))
 CVC5_TIMEOUT_S = int(os.environ.get('PYVC_CVC5_TIMEOUT', '20'))
+CANARY_TIMEOUT_S = 3
 WORKERS = int(os.environ.get('PYVC_WORKERS', str(min(16, os.cpu_count() or 4))))
 
 
@@ -35,10 +36,10 @@ def _run(cmd, timeout):
 
 
 def solve_one(args):
-    idx, text, workdir, use_cvc5 = args
+    idx, text, workdir, use_cvc5, tmo = args
     path = os.path.join(workdir, f'ob{idx}.smt2')
     with open(path, 'w') as f: f.write(text)
-    res, out, dt = _run([Z3_BIN, '-smt2', f'-T:{Z3_TIMEOUT_S}', path], Z3_TIMEOUT_S + 5)
+    res, out, dt = _run([Z3_BIN, '-smt2', f'-T:{tmo}', path], tmo + 5)
     solver = 'z3-5.1'
     if res in ('unknown', 'error') and use_cvc5 and os.path.exists(CVC5_BIN):
         text2 = '(set-logic ALL)\n' + text
@@ -67,7 +68,8 @@ def discharge(obligations, use_cvc5=True):
             g = z3.simplify(o.goal)
             if z3.is_true(g):
                 results[i] = dict(result='unsat', solver='simplifier', ms=0, out=''); continue
-            jobs.append((i, to_smt2(o.hyps, o.goal), wd, use_cvc5))
+            canary = o.kind == 'canary'      # vacuity guards: only `unsat` matters, a short budget is enough
+            jobs.append((i, to_smt2(o.hyps, o.goal), wd, use_cvc5 and not canary, CANARY_TIMEOUT_S if canary else Z3_TIMEOUT_S))
         with cf.ThreadPoolExecutor(max_workers=WORKERS) as pool:
             for idx, res, solver, ms, out in pool.map(solve_one, jobs):
                 results[idx] = dict(result=res, solver=solver, ms=ms, out=out)
